@@ -146,6 +146,7 @@ def run(chk: Check) -> None:
     run_dep_import_options(chk, ix)
     run_option_writers(chk, ix, Resolver(ix))
     run_chained_plugin_data(chk, ix)
+    run_plugin_data_in_interface_hash(chk, ix)
     R = Resolver(ix)
     chk.trusted += ["receiver typing by annotations (sa/resolve.py)", "RTA call graph with name-based fallback (sa/callgraph.py)"]
     mopt = ix.module("mypy.options")
@@ -562,3 +563,26 @@ def run_chained_plugin_data(chk: Check, ix) -> None:
             r7.violation(key, f.loc(early[0]), f"`{norm(early[0])[:50]}` inside the loop over self._plugins: the first plugin with something to report ends the collection, what the remaining plugins report never reaches the cache meta (their configuration can change without invalidating anything)")
         else:
             r7.ok(key, f.loc(over[0] if isinstance(over[0], ast.For) else f.node))
+
+
+def run_plugin_data_in_interface_hash(chk: Check, ix) -> None:
+    """R09.8: a module's plugin configuration data reaches its importers through the interface hash."""
+    r8 = chk.rule("R09.8", "a plugin's report_config_data(module) is compared per module in find_cache_meta (the module itself becomes stale) but plugin hooks run in the *importers* of the module the data is about, and importers are re-checked only when the interface hash of a dependency changes: build.write_cache therefore hashes the plugin data together with the serialized tree into interface_hash, and stores the same value in the meta", floor=2)
+    wc = ix.func("mypy.build.write_cache")
+    pd = [a for a in ast.walk(wc.node) if isinstance(a, ast.Assign) and norm(a.targets[0]) == "plugin_data" and "report_config_data" in norm(a.value)]
+    ih = [a for a in ast.walk(wc.node) if isinstance(a, ast.Assign) and norm(a.targets[0]) == "interface_hash"]
+    if not pd or not ih:
+        raise AnalysisError(f"write_cache: plugin_data assignments {len(pd)}, interface_hash assignments {len(ih)}")
+    key = "write_cache: interface_hash covers the module's plugin configuration data"
+    names = {x.id for a in ih for x in ast.walk(a.value) if isinstance(x, ast.Name)}
+    if "plugin_data" in names and ({"data_bytes", "data"} & names):
+        r8.ok(key, wc.loc(ih[0]))
+    else:
+        r8.violation(key, wc.loc(ih[0]), f"interface_hash is computed from {sorted(names - {'hash_digest_bytes', 'json_dumps'})} only: when a plugin's per-module setting changes, the module is re-checked but keeps its interface hash (hooks leave its own tree unchanged), its importers stay fresh and replay diagnostics computed with the old setting")
+    metas = [c for c in ast.walk(wc.node) if isinstance(c, ast.Call) and call_name(c) == "CacheMeta"]
+    key2 = "write_cache: the meta stores the plugin data that was hashed"
+    ok2 = any(k.arg == "plugin_data" and norm(k.value) == "plugin_data" for c in metas for k in c.keywords)
+    if ok2:
+        r8.ok(key2, wc.loc(metas[0]))
+    else:
+        r8.violation(key2, wc.loc(), "CacheMeta is built without plugin_data=plugin_data: find_cache_meta cannot notice a changed plugin configuration")
